@@ -38,6 +38,21 @@ type IOLog struct {
 	OnEvent func(ev Event) // called with l.mu released, before the operation happens
 	OnPoint func(name string, key []byte)
 	seq     int
+	mute    int
+}
+
+// Muted runs fn with the hooks ignored (used while the harness itself opens
+// engine files for inspection; single-threaded checks only).
+func (l *IOLog) Muted(fn func()) {
+	l.mu.Lock()
+	l.mute++
+	l.mu.Unlock()
+	defer func() {
+		l.mu.Lock()
+		l.mute--
+		l.mu.Unlock()
+	}()
+	fn()
 }
 
 func NewIOLog() *IOLog { return &IOLog{Files: map[string]*FileState{}} }
@@ -56,6 +71,10 @@ func (l *IOLog) file(path string) *FileState {
 
 func (l *IOLog) handleIO(kind string, path string, n int64) {
 	l.mu.Lock()
+	if l.mute > 0 {
+		l.mu.Unlock()
+		return
+	}
 	l.seq++
 	ev := Event{Seq: l.seq, Kind: kind, Path: path, N: n}
 	if l.Record {
@@ -96,6 +115,10 @@ func (l *IOLog) handleIO(kind string, path string, n int64) {
 
 func (l *IOLog) handleFS(kind string, a, b string) {
 	l.mu.Lock()
+	if l.mute > 0 {
+		l.mu.Unlock()
+		return
+	}
 	l.seq++
 	ev := Event{Seq: l.seq, Kind: kind, Path: a, Path2: b}
 	if l.Record {
@@ -130,6 +153,10 @@ func (l *IOLog) handleFS(kind string, a, b string) {
 
 func (l *IOLog) handlePoint(name string, key []byte) {
 	l.mu.Lock()
+	if l.mute > 0 {
+		l.mu.Unlock()
+		return
+	}
 	cbp := l.OnPoint
 	var cb func(Event)
 	var ev Event
